@@ -449,8 +449,20 @@ func (c *ctx) runJob(bin string, job *pt.Job, timeout time.Duration) ([]pt.Line,
 	lines, _ := readLines(of)
 	if werr != nil {
 		tail := stderr.String()
-		if len(tail) > 4000 {
-			tail = tail[len(tail)-4000:]
+		if len(tail) > 6000 {
+			// keep the place where the crash is announced (the goroutine dump that follows can be long) and the end
+			head := ""
+			for _, mark := range []string{"\npanic: ", "\nfatal error: "} {
+				if i := strings.Index(tail, mark); i >= 0 && i < len(tail)-4000 {
+					head = tail[i+1:]
+					if len(head) > 2500 {
+						head = head[:2500]
+					}
+					head += "\n[...]\n"
+					break
+				}
+			}
+			tail = head + tail[len(tail)-4000:]
 		}
 		return lines, fmt.Errorf("%v\n%s", werr, tail)
 	}
